@@ -61,6 +61,9 @@ def c08_cases():
         # the supervisor is busy replacing them (with a slow on_process_up
         # callback) when terminate() arrives
         'mass': st.sampled_from([0, 0, 2, 3, 3]),
+        # the call arrives while the supervisor is inside start() of a
+        # replacement worker (its fork takes 1 s): listed, no process yet
+        'midfork': st.sampled_from([False, False, False, True]),
     })
 
 
@@ -100,6 +103,10 @@ def execute_c08(case):
     # the task queue, holding its read lock)
     steps.append(['sleep', 0.6])
     mass = case.get('mass', 0) if threads else 0
+    midfork = bool(case.get('midfork')) and threads and procs >= 2
+    if midfork:
+        mass = 0
+        steps += [['kill_idle_n', 1, 15], ['wait_starts', 1, 20], ['sleep', 0.2]]
     if mass:
         # the call is made right after the first replacement came up, i.e.
         # while the supervisor sits in that worker's (slow) on_process_up
@@ -121,12 +128,15 @@ def execute_c08(case):
         steps += [['sigterm_worker', 'r0'], ['sleep', 6.0], ['snapshot', 'after'],
                   ['terminate']]
     scen = {'pool': {'procs': procs, 'threads': threads, 'lost': 0.5,
-                     'slow_up': 0.5 if mass else 0},
+                     'slow_up': 0.5 if mass else 0,
+                     'slow_start': 1.0 if midfork else 0},
             'steps': steps, 'watch': 75, 'settle': 2.5}
     obs = run_scenario(scen)
     labels = ['action=' + action, 'threads=%s' % threads]
     if mass:
         labels.append('supervisor_replacing')
+    if midfork:
+        labels.append('replacement_fork_in_flight')
     nontrivial = bool(running)
     if running:
         labels.append('worker_in_task')
@@ -157,7 +167,7 @@ def execute_c08(case):
                 where = 'workers-blocked-on-queue-lock'
                 # D21: terminate() raced the supervisor's replacement of
                 # workers (at most the one fork that was in flight came after)
-                if mass:
+                if mass or midfork:
                     where = 'replacement-race'
             return bad('C08/terminate-hangs/%s' % where,
                        'terminate() did not return within %ss\n%s\nworkers:\n%s' % (
@@ -404,17 +414,13 @@ def execute_c04(case):
         if tag not in dies:
             return inconclusive('victim %s never ran' % tag, labels)
         pid, t_die = dies[tag]
-        # known finding D7 in the real world: the supervisor reaped the victim
-        # before the result handler consumed its ACK
+        # the schedule of the repaired finding D7: the supervisor reaped the
+        # victim before the result handler consumed its ACK (judged like any
+        # other loss since 1b6a392)
         t_down = [d[2] for d in obs.get('downs', []) if d[0] == pid]
         acc = rec.get('accept')
         if t_down and (not acc or acc[2] > t_down[0]):
             labels.append('ack_consumed_after_reap')
-            if not rec.get('ready') or out.get('type') != 'WorkerLostError' or \
-                    'exitcode 0' in out.get('args', ''):
-                return bad('C04/real-ack-after-reap', 'job %s: worker %d reaped '
-                           'before its ACK was consumed; outcome %r' % (
-                               tag, pid, out), nontrivial, labels)
         if not rec.get('ready'):
             return bad('C04/real-unresolved', 'job %s whose worker died (%r) is '
                        'unresolved 60 s later' % (tag, death), nontrivial, labels)
@@ -457,6 +463,77 @@ def execute_c04(case):
                                                          case['procs']),
                    nontrivial, labels)
     return ok(nontrivial, labels)
+
+
+def c04_lateack_cases():
+    """the supervisor reaps a dead worker BEFORE the result handler consumes the
+    ACK of the job it was running (a pool without helper threads, driven by hand
+    in exactly that order)"""
+    return st.fixed_dictionaries({
+        'procs': st.integers(1, 3),
+        'lost': st.sampled_from([0.3, 0.5, 1.0]),
+        'death': _DEATH,
+        'others': st.integers(0, 2),
+    })
+
+
+def execute_c04_lateack(case):
+    L = case['lost']
+    death = case['death']
+    steps = [['apply', 'v', [['sleep', 0.2], list(death)], {}]]
+    for i in range(case['others']):
+        steps.append(['apply', 'o%d' % i, [['sleep', 0.05], ['ret', i]], {}])
+    steps += [['wait_mark', 'never', 0.8],   # the victim is dead, nothing consumed
+              ['maintain'],                  # reaped first ...
+              ['pump', 2.0],                 # ... its ACK consumed afterwards
+              ['snapshot', 'mid'],
+              ['drive', 30], ['snapshot', 'after'], ['terminate']]
+    scen = {'pool': {'procs': case['procs'], 'lost': L, 'threads': False},
+            'steps': steps, 'watch': 90, 'settle': 0.2}
+    obs = run_scenario(scen)
+    labels = ['lateack']
+    t = _harness_trouble(obs, 'C04')
+    if t:
+        return t
+    if obs['hung']:
+        return inconclusive('watchdog: %s' % obs['stacks'][-300:], labels)
+    dies = {e[1]: (int(e[2]), float(e[3])) for e in _exec_by(obs, 'die')}
+    rec = obs['jobs'].get('v', {})
+    if 'v' not in dies:
+        return inconclusive('victim never ran', labels)
+    pid, t_die = dies['v']
+    t_down = [d[2] for d in obs.get('downs', []) if d[0] == pid]
+    acc = rec.get('accept')
+    if not (t_down and acc and acc[2] > t_down[0]):
+        return inconclusive('schedule not reached: ACK consumed %r, reaped %r' % (
+            acc, t_down), labels)
+    labels.append('ack_consumed_after_reap')
+    out = rec.get('outcome')
+    if not rec.get('ready'):
+        return bad('C04/real-unresolved', 'job whose worker died (%r) and was '
+                   'reaped before its ACK was consumed is unresolved 30 s later'
+                   % (death,), True, labels)
+    if out.get('type') != 'WorkerLostError':
+        return bad('C04/real-wrong-outcome', 'job whose worker died (%r): %r'
+                   % (death, out), True, labels)
+    want = ('signal %d' % death[1]) if death[0] == 'kill' \
+        else ('exitcode %d' % death[1])
+    if want not in out['args']:
+        return bad('C04/real-status-text', '%s does not name %r (ACK consumed '
+                   'after the reap)' % (out['args'], want), True, labels)
+    t_err = rec['cb'][0][1]
+    if t_err < t_die + L - 0.005:
+        return bad('C04/real-early', 'failed %.3fs after the death, lost timeout '
+                   '%.2f' % (t_err - t_die, L), True, labels)
+    for i in range(case['others']):
+        o = obs['jobs'].get('o%d' % i, {}).get('outcome')
+        if o != {'ok': True, 'value': i}:
+            return bad('C04/real-bystander', 'job o%d: %r' % (i, o), True, labels)
+    snap = obs['snapshots']['after']
+    if len(snap['pids']) != case['procs'] or pid in snap['pids']:
+        return bad('C04/real-not-replaced', 'pool %r after the loss, size %d, '
+                   'victim %d' % (snap['pids'], case['procs'], pid), True, labels)
+    return ok(True, labels)
 
 
 def c04_imap_cases():
@@ -512,16 +589,13 @@ def execute_c04_imap(case):
     if set(dies) != set(victims):
         return inconclusive('victims that ran: %r of %r' % (sorted(dies),
                                                             sorted(victims)), labels)
-    # the real-world face of the open finding D7: the supervisor reaped a victim
-    # before the result handler consumed that part's ACK
+    # the schedule of the repaired finding D7: a victim reaped before the result
+    # handler consumed that part's ACK (judged like any other loss)
     acks = {a[0]: a for a in rec.get('part_acks', [])}
     for x, (pid, t_die) in dies.items():
         t_down = [d[2] for d in obs.get('downs', []) if d[0] == pid]
         if t_down and x in acks and acks[x][2] > t_down[0]:
             labels.append('ack_consumed_after_reap')
-            return bad('C04/real-ack-after-reap', 'imap part %d: worker %d reaped '
-                       'before its ACK was consumed; items %r' % (x, pid, items),
-                       nontrivial, labels)
     body, last = items[:-1], items[-1]
     if last[0] != 'stop':
         return bad('C04/real-imap-loss-not-surfaced', '%s over %d items, victims '
